@@ -225,10 +225,11 @@ def boolean_returns(f):
 
 UNROLL_ANCHORS = (
     'tbrmmdesignparameters.TBRMMDesignParameters.__post_init__',
+    'tbrmmdesign.TBRMMDesign.__post_init__',
 )
 
 
-def unroll_literal_loops(f):
+def unroll_literal_loops(f, only_data_driven=False):
   """for T in (a, b, c): BODY  ->  BODY[T:=a]; BODY[T:=b]; BODY[T:=c]   (iterable a tuple/list display, possibly named
   by a local assigned once; no break/continue/else; the loop variables are not used after the loop)."""
   from mmsa.core import walk_no_nested
@@ -238,6 +239,13 @@ def unroll_literal_loops(f):
   def literal_of(it):
     if isinstance(it, (ast.Tuple, ast.List)) and not any(isinstance(x, ast.Starred) for x in it.elts):
       return it
+    if isinstance(it, ast.Attribute) and isinstance(it.value, ast.Name) and f.cls is not None and it.attr in f.cls.attrs \
+        and (it.value.id == f.cls.name or (f.params and it.value.id == f.params[0])):
+      v = f.cls.attrs[it.attr]       # class-level table: _derived_fields = ('a', 'b', ...)
+      stored = any(isinstance(t, ast.Attribute) and t.attr == it.attr and isinstance(t.ctx, ast.Store)
+                   for m in f.cls.all_functions() for t in ast.walk(m.node))
+      if v is not None and not stored:
+        return literal_of(v)
     if isinstance(it, ast.Name):
       defs = [s for s in walk_no_nested(node) if isinstance(s, ast.Name) and s.id == it.id and isinstance(s.ctx, ast.Store)]
       if len(defs) == 1 and isinstance(getattr(defs[0], '_parent', None), ast.Assign) and len(defs[0]._parent.targets) == 1:
@@ -266,7 +274,7 @@ def unroll_literal_loops(f):
       for fld in ('body', 'orelse', 'finalbody'):
         if hasattr(st, fld) and isinstance(getattr(st, fld), list):
           setattr(st, fld, block(getattr(st, fld)))
-      lit = literal_of(st.iter) if isinstance(st, ast.For) and not st.orelse else None
+      lit = literal_of(st.iter) if isinstance(st, ast.For) and not st.orelse and (not only_data_driven or _data_driven(st)) else None
       if lit is not None and len(lit.elts) <= 32 and not any(isinstance(x, (ast.Break, ast.Continue, ast.Return, ast.Yield)) for b_ in st.body for x in ast.walk(b_)):
         binds = [bind(st.target, e) for e in lit.elts]
         names = set().union(*[set(b) for b in binds if b]) if binds else set()
@@ -452,13 +460,85 @@ def _cloned(f):
     g_.outer = f
 
 
+def constant_setattr(f):
+  """setattr(obj, 'name', v) -> obj.name = v ;  getattr(obj, 'name') -> obj.name   (constant names only)."""
+  node = f.node
+  changed = [False]
+
+  def expr(e):
+    if isinstance(e, ast.Call) and isinstance(e.func, ast.Name) and e.func.id == 'getattr' and len(e.args) == 2 and not e.keywords \
+        and isinstance(e.args[1], ast.Constant) and isinstance(e.args[1].value, str) and e.args[1].value.isidentifier():
+      changed[0] = True
+      return ast.Attribute(value=expr(e.args[0]), attr=e.args[1].value, ctx=ast.Load())
+    if isinstance(e, (ast.FunctionDef, ast.ClassDef)):
+      return e
+    return dataflow._map_children(e, expr) if isinstance(e, ast.AST) else e
+
+  def block(stmts):
+    out = []
+    for st in stmts:
+      if isinstance(st, (ast.FunctionDef, ast.ClassDef, ast.AsyncFunctionDef)):
+        out.append(st)
+        continue
+      for fld in ('body', 'orelse', 'finalbody'):
+        if hasattr(st, fld) and isinstance(getattr(st, fld), list):
+          setattr(st, fld, block(getattr(st, fld)))
+      if isinstance(st, ast.Try):
+        for hd in st.handlers:
+          hd.body = block(hd.body)
+      if isinstance(st, ast.Expr) and isinstance(st.value, ast.Call) and isinstance(st.value.func, ast.Name) and st.value.func.id == 'setattr' \
+          and len(st.value.args) == 3 and not st.value.keywords and isinstance(st.value.args[1], ast.Constant) \
+          and isinstance(st.value.args[1].value, str) and st.value.args[1].value.isidentifier():
+        a0, a1, a2 = st.value.args
+        out.append(ast.Assign(targets=[ast.Attribute(value=expr(a0), attr=a1.value, ctx=ast.Store())], value=expr(a2),
+                              lineno=st.lineno, col_offset=st.col_offset))
+        changed[0] = True
+        continue
+      for fld, val in list(ast.iter_fields(st)):
+        if fld in ('body', 'orelse', 'finalbody', 'handlers'):
+          continue
+        if isinstance(val, ast.AST):
+          setattr(st, fld, expr(val))
+        elif isinstance(val, list):
+          setattr(st, fld, [expr(x) if isinstance(x, ast.AST) else x for x in val])
+      out.append(st)
+    return out
+  node.body = block(node.body)
+  if changed[0]:
+    ast.fix_missing_locations(node)
+    for n in ast.walk(node):
+      for ch in ast.iter_child_nodes(n):
+        ch._parent = n
+  return changed[0]
+
+
+def _data_driven(loop):
+  """The loop variable is used as an attribute name or dispatched on: setattr/getattr(obj, var, ..)."""
+  names = {x.id for x in ast.walk(loop.target) if isinstance(x, ast.Name)}
+  for b in loop.body:
+    for x in ast.walk(b):
+      if isinstance(x, ast.Call) and isinstance(x.func, ast.Name) and x.func.id in ('setattr', 'getattr') and len(x.args) >= 2 \
+          and isinstance(x.args[1], ast.Name) and x.args[1].id in names:
+        return True
+  return False
+
+
 def lower_repo(repo):
   done = []
   for q, f in list(repo.functions.items()):
     saved = (f.node, f.nested, getattr(f, '_private_clone', False))
     _cloned(f)
-    if canonical_iteration_forms(f):
-      done.append('%s: iteration forms' % q)
+    c1 = canonical_iteration_forms(f)
+    c2 = conditional_assignments(f)
+    c3 = unroll_literal_loops(f, only_data_driven=True)
+    c4 = constant_setattr(f)
+    if c1 or c2 or c3 or c4:
+      done.append('%s: %s' % (q, ' + '.join(x for x, y in (('iteration forms', c1), ('conditional assignments', c2), ('attribute-table loops unrolled', c3),
+                                                            ('constant setattr/getattr', c4)) if y)))
+      tmp = core.FuncInfo(f.module, f.node, f.cls, f.kind, f.outer)
+      f.nested = tmp.nested
+      for g_ in f.nested.values():
+        g_.outer = f
     else:
       f.node, f.nested, f._private_clone = saved
   for q in LOWERED_ANCHORS:
@@ -504,3 +584,39 @@ def lower_repo(repo):
     else:
       f.node, f.nested, f._private_clone = saved
   return done
+
+
+def conditional_assignments(f):
+  """x = A if c else B   ->   if c: x = A  else: x = B     (single Name/attribute target; applied to every function, so
+  that path rules and the None-fact edge filters see the choice as a branch)."""
+  node = f.node
+  changed = [False]
+
+  def block(stmts):
+    out = []
+    for st in stmts:
+      if isinstance(st, (ast.FunctionDef, ast.ClassDef, ast.AsyncFunctionDef)):
+        out.append(st)
+        continue
+      for fld in ('body', 'orelse', 'finalbody'):
+        if hasattr(st, fld) and isinstance(getattr(st, fld), list):
+          setattr(st, fld, block(getattr(st, fld)))
+      if isinstance(st, ast.Try):
+        for hd in st.handlers:
+          hd.body = block(hd.body)
+      if isinstance(st, ast.Assign) and len(st.targets) == 1 and isinstance(st.value, ast.IfExp) \
+          and isinstance(st.targets[0], (ast.Name, ast.Attribute, ast.Tuple)):
+        a = ast.Assign(targets=[dataflow.clone(st.targets[0])], value=st.value.body, lineno=st.lineno, col_offset=st.col_offset)
+        b = ast.Assign(targets=[dataflow.clone(st.targets[0])], value=st.value.orelse, lineno=st.lineno, col_offset=st.col_offset)
+        out.append(ast.If(test=st.value.test, body=block([a]), orelse=block([b]), lineno=st.lineno, col_offset=st.col_offset))
+        changed[0] = True
+        continue
+      out.append(st)
+    return out
+  node.body = block(node.body)
+  if changed[0]:
+    ast.fix_missing_locations(node)
+    for n in ast.walk(node):
+      for ch in ast.iter_child_nodes(n):
+        ch._parent = n
+  return changed[0]
